@@ -18,6 +18,8 @@ type Config struct {
 	TickBudget int // ticker ticks per execution
 	MaxPoints  int // safety net against livelock (0: 20000)
 	MaxExec    int // cap on executions (0: none); hitting it makes the result non-exhaustive
+	StateKeys  bool // prune by global state key: alternatives of a point are not explored again from a state that
+	// was already expanded with at least the same remaining preemption budget
 	Deadline   time.Duration
 	// Body builds the world and starts the scenario threads; it runs as the first managed thread.
 	Body func(x *Exec)
@@ -47,6 +49,7 @@ type Stats struct {
 	Findings    map[string]FoundAt
 	Samples     []string
 	Truncated   int64
+	Pruned      int64
 }
 
 type FoundAt struct {
@@ -75,12 +78,15 @@ func Explore(cfg Config) Stats {
 	}
 	start := time.Now()
 	seenSched := map[string]bool{}
+	UseStateKeys = cfg.StateKeys
+	defer func() { UseStateKeys = false }()
 	maxB := cfg.Bound
 	if maxB < 0 {
 		maxB = 1 << 30
 	}
 	for b := 0; b <= maxB; b++ {
 		newWork := false
+		expanded := map[string]int{} // state key -> largest remaining budget it was expanded with (+1)
 		stack := [][]int{{}}
 		for len(stack) > 0 {
 			if (cfg.MaxExec > 0 && st.Executions >= int64(cfg.MaxExec)) || (cfg.Deadline > 0 && time.Since(start) > cfg.Deadline) {
@@ -91,6 +97,10 @@ func Explore(cfg Config) Stats {
 			stack = stack[:len(stack)-1]
 			x := &Exec{V: map[string]interface{}{}}
 			r := Run(prefix, cfg.FireBudget, cfg.TickBudget, cfg.MaxPoints, func() { cfg.Body(x) })
+			var checked []Finding
+			if cfg.Check != nil {
+				checked = cfg.Check(x, r) // before the clean-up: it reads what the peers received
+			}
 			for _, f := range x.Cleanup {
 				f()
 			}
@@ -121,11 +131,13 @@ func Explore(cfg Config) Stats {
 					fs = append(fs, Finding{"panic:" + panicSite(p), p})
 				}
 				if r.Deadlock != "" {
-					fs = append(fs, Finding{"deadlock:" + deadlockSig(r.Deadlock), "no thread can make progress: " + r.Deadlock})
+					sig := deadlockSig(r.Deadlock)
+					if r.Cycle != "" {
+						sig = r.Cycle
+					}
+					fs = append(fs, Finding{"deadlock:" + sig, "no thread can make progress: " + r.Deadlock})
 				}
-				if cfg.Check != nil {
-					fs = append(fs, cfg.Check(x, r)...)
-				}
+				fs = append(fs, checked...)
 				out := "ok"
 				for _, f := range fs {
 					out = f.Sig
@@ -146,6 +158,14 @@ func Explore(cfg Config) Stats {
 			for i := len(prefix); i < len(r.Points); i++ {
 				p := r.Points[i]
 				before := preemptions(r.Points, i)
+				if p.Key != "" {
+					remaining := b - before + 1
+					if expanded[p.Key] >= remaining {
+						st.Pruned++
+						continue
+					}
+					expanded[p.Key] = remaining
+				}
 				for alt := 1; alt < len(p.Alts); alt++ {
 					cost := before
 					if p.RunEn && p.Alts[alt].Thread != p.Running {
